@@ -534,6 +534,35 @@ func Unlock(unlock func()) {
 	}
 }
 
+// simLocker is the sync.Locker handed to a sync.Cond (and returned for
+// RWMutex.RLocker()): its Lock is the same scheduling point + durable TryLock
+// loop as every rewritten x.Lock(), so the re-lock inside Cond.Wait cannot
+// block on a real mutex whose holder is parked.
+type simLocker struct {
+	try          func() bool
+	lock, unlock func()
+}
+
+func (l *simLocker) Lock()         { Lock("lock@cond", l.try, l.lock) }
+func (l *simLocker) Unlock()       { Unlock(l.unlock) }
+func (l *simLocker) TryLock() bool { return l.try() }
+
+// RLockerOf replaces x.RLocker().
+func RLockerOf(try func() bool, lock, unlock func()) sync.Locker {
+	return &simLocker{try: try, lock: lock, unlock: unlock}
+}
+
+// CondLocker wraps the argument of sync.NewCond.
+func CondLocker(l sync.Locker) sync.Locker {
+	if _, ok := l.(*simLocker); ok {
+		return l
+	}
+	if t, ok := l.(interface{ TryLock() bool }); ok {
+		return &simLocker{try: t.TryLock, lock: l.Lock, unlock: l.Unlock}
+	}
+	return l
+}
+
 // ---------------------------------------------------------------------------
 // Select
 
